@@ -1,5 +1,5 @@
 #!/bin/sh
-# tools/harmless_test.sh H1|H2|H3 : every check must pass on a harmless change (see seeded/harmless/README.md)
+# tools/harmless_test.sh H1..H7 : every check must pass on a harmless change (see seeded/harmless/README.md)
 root="$(cd "$(dirname "$0")/.." && pwd)"
 wt="/tmp/seedtest/harmless-$1-$$"
 mkdir -p /tmp/seedtest
